@@ -55,3 +55,5 @@ FN_CASES = {
 }
 for k, src in FN_CASES.items():
     print('%-26s %s' % (k, [x[:4] for x in lint(P, src, '/nonexistent/t.py')]))
+print('%-26s %s' % ('except_type_walrus_next_handler', [x[:4] for x in lint(P, "def f(g):\n    try:\n        g()\n    except (E := KeyError):\n        pass\n    except ValueError:\n        print(E)\n", '/nonexistent/t.py')]))
+print('%-26s %s' % ('except_type_walrus_next_type', [x[:4] for x in lint(P, "def f(g):\n    try:\n        g()\n    except (E := KeyError):\n        pass\n    except (E, ValueError):\n        pass\n", '/nonexistent/t.py')]))
